@@ -953,6 +953,28 @@ var rR24 = RuleRef{Name: "R24", Doc: "replica determinism and snapshots: executo
 		return calls > 0 && calls == gos
 	}
 	setTTLfn := c.P.Func("memdb", "MemDb.SetTTL")
+	readsDeadline := func(v ssa.Value) bool {
+		found := false
+		backslice(v, func(y ssa.Value) bool {
+			if fa, ok := y.(*ssa.FieldAddr); ok && fieldName(fa) == "value" && namedOf(fa.X.Type()) == "TTLInfo" {
+				found = true
+			}
+			if cl, ok := y.(*ssa.Call); ok {
+				if cf := cl.Call.StaticCallee(); cf != nil && firstParty(cf) && cf.Blocks != nil {
+					for _, b := range cf.Blocks {
+						for _, in := range b.Instrs {
+							if fa, ok := in.(*ssa.FieldAddr); ok && fieldName(fa) == "value" && namedOf(fa.X.Type()) == "TTLInfo" {
+								found = true
+							}
+						}
+					}
+				}
+				return false
+			}
+			return !found
+		})
+		return found
+	}
 	purposeOf := func(call *ssa.Call) string {
 		purpose := ""
 		seen := map[ssa.Value]bool{}
@@ -971,27 +993,15 @@ var rR24 = RuleRef{Name: "R24", Doc: "replica determinism and snapshots: executo
 						if other == v {
 							other = x.Y
 						}
-						isDeadline := false
-						backslice(other, func(y ssa.Value) bool {
-							if fa, ok := y.(*ssa.FieldAddr); ok && fieldName(fa) == "value" && namedOf(fa.X.Type()) == "TTLInfo" {
-								isDeadline = true
-							}
-							return !isDeadline
-						})
-						if isDeadline {
+						if readsDeadline(other) {
 							purpose = "the local clock is compared with a stored deadline (lazy expiry / TTL reply)"
 						}
 					case token.ADD, token.SUB, token.MUL, token.QUO:
 						fwd(x, d+1)
 					}
 					// TTL reply: deadline - now
-					if x.Op == token.SUB && purpose == "" {
-						backslice(x.X, func(y ssa.Value) bool {
-							if fa, ok := y.(*ssa.FieldAddr); ok && fieldName(fa) == "value" && namedOf(fa.X.Type()) == "TTLInfo" {
-								purpose = "the local clock is compared with a stored deadline (lazy expiry / TTL reply)"
-							}
-							return purpose == ""
-						})
+					if x.Op == token.SUB && purpose == "" && readsDeadline(x.X) {
+						purpose = "the local clock is compared with a stored deadline (lazy expiry / TTL reply)"
 					}
 				case *ssa.Call:
 					if cf := x.Call.StaticCallee(); cf != nil {
@@ -1089,6 +1099,21 @@ var rR24 = RuleRef{Name: "R24", Doc: "replica determinism and snapshots: executo
 				}
 				if subsIdle && inSubscriptionBranch(in) {
 					continue
+				}
+				if subsIdle {
+					overSubs := false
+					backslice(rg.X, func(y ssa.Value) bool {
+						if fa, ok := y.(*ssa.FieldAddr); ok {
+							if n := fieldName(fa); n == "LSubscriptions" || n == "RSubscriptions" {
+								overSubs = true
+							}
+							return false
+						}
+						return true
+					})
+					if overSubs {
+						continue
+					}
 				}
 				// a return inside the loop body: the choice of element depends on iteration order
 				early := false
